@@ -520,6 +520,8 @@ def sempty(elem_ty):
 
 
 def smem(s, x):
+    if isinstance(x.ty, Opt) and x.ty.elem == s.ty.elem:
+        return z3.And(z3.Not(ois_none(x)), smem_t(s, oval(x).t))       # None is not an element of a set of non-None things
     x = coerce(x, s.ty.elem)
     return smem_t(s, x.t)
 
